@@ -304,8 +304,7 @@ def check(run, F, tier):
                 continue
             rem = [(i, e) for i, e in conn.calls(p, "HashSet::<T, S, A>::remove") if "publish_recv" in repr(e[3][0])]
             if cond == "failure":
-                fl = [conn.truth(p, e) for _, e in conn.calls(p, "::is_failure")]
-                if fl and fl[0] is True:
+                if conn.rc_failing(p) is True:
                     n += 1
                     if not rem:
                         bad = p
